@@ -158,6 +158,18 @@ CHECKS = {
         technique="Lean 4 proof (per-call overlap + telescoping) + differential correspondence of callback times + reference-trajectory oracle",
         ref="5/C15",
     ),
+    "C09": dict(
+        text="Theorems (Lean 4) over a model of what a run writes (clock epochs, initial save, stepForward recording the stepped epoch, the output test on the clock "
+             "time, saveDatabaseOutput inserting missing epochs before one bulk save): the referential-consistency invariant (unique epochs; every truth, estimate "
+             "and transient row refers to a stored epoch; rows waiting to be saved wait together with their epoch) holds initially and is preserved by every step, "
+             "for any step/output/span incl. runs past the configured stop; truth rows are exactly the initial state plus one row per agent per output epoch; one call "
+             "or several consecutive calls give the same database; a witness theorem records the unrepaired dangling rows. Tied to the code by real scenarios on real "
+             "Ray whose SQLite file is audited with SQL (uniqueness, anti-joins for every epoch and agent reference in seven tables, per-epoch counts, timestamp vs "
+             "Julian date, read-back equality with the live objects) and compared with the model's predicted tables; atomicity by fault injection.",
+        note=BASE_TB + "SQLAlchemy/SQLite transaction semantics are exercised (a failing row in a bulk save), not proved; states are abstracted to row identities in the model.",
+        technique="Lean 4 proof (invariant by induction over steps) + SQL audit of real output databases compared with the model",
+        ref="5/C09",
+    ),
 }
 
 PLANNED = {}
